@@ -342,10 +342,15 @@ class Text(Input):
                     self._variable_name = ' '.join(curr[1:])
                 elif curr[0] == "units:":
                     self._variable_units = ' '.join(curr[1:])
-                elif curr[0] == "x0:":
-                    self._variable_x0 = float(curr[1])
-                elif curr[0] == "x1:":
-                    self._variable_x1 = float(curr[1])
+                elif curr[0] in ["x0:", "x1:"]:
+                    try:
+                        value = float(curr[1])
+                    except (IndexError, ValueError):
+                        verif.util.error("Could not parse the value in line '%s' in file '%s'" % (rowstr.strip(), self._filename))
+                    if curr[0] == "x0:":
+                        self._variable_x0 = value
+                    else:
+                        self._variable_x1 = value
                 else:
                     verif.util.warning("Ignoring line '" + rowstr.strip() + "' in file '" + self._filename + "'")
             else:
